@@ -16,7 +16,27 @@ def run(tier, seed):
             raise vlib.Infra(f"ideal model violates {mc.violated}\n{mc.out[-2000:]}")
         states += mc.distinct
         trans += mc.generated
-    v.add_cov(states=states, transitions=trans, exhaustive=True)
+    # FrpcManager: the proxy manager composed with the server's name table over the ordered control connection.
+    # Ideal rule (answers count for the registration they answer) under two environment budgets and with two
+    # names; the code's rule (answers matched by name only) must be refuted by TLC (vacuity guard; the same
+    # behaviour is a recorded finding that the directed history of the driver shows on the real code).
+    mcfg = (vlib.SPEC / "MC_FrpcManager.cfg").read_text()
+    runs = [("one name, refusals", mcfg), ("one name, late answers", mcfg.replace("Budget <- B1", "Budget <- B1L"))]
+    runs.append(("two names", (vlib.SPEC / "MC_FrpcManager_two.cfg").read_text()))
+    if tier != "quick":
+        runs.append(("one name, larger budgets", mcfg.replace("Budget <- B1", "Budget <- B3")))
+    mstates = 0
+    for label, cfg in runs:
+        mc = vlib.tlc("MC_FrpcManager", cfg, workers=8, timeout=1800)
+        if not mc.ok:
+            raise vlib.Infra(f"FrpcManager ({label}): ideal model violates {mc.violated}\n{mc.out[-2000:]}")
+        states += mc.distinct
+        trans += mc.generated
+        mstates += mc.distinct
+    dv = vlib.tlc("MC_FrpcManager", (vlib.SPEC / "MC_FrpcManager_dev.cfg").read_text(), workers=4, timeout=600)
+    if dv.ok or dv.violated != "RunningMeansRegistered":
+        raise vlib.Infra(f"FrpcManager: deviation ReplyMatchedByNameOnly not refuted by RunningMeansRegistered (got {dv.violated})")
+    v.add_cov(states=states, transitions=trans, exhaustive=True, manager_model_states=mstates, deviation_refuted="ReplyMatchedByNameOnly -> RunningMeansRegistered")
     d = vlib.scratch("c19-")
     stats = {}
     tf = d / "cproxies.ndjson"
